@@ -4,6 +4,7 @@ import StatimeModel.Model.PortDriver
 import StatimeModel.Model.Overlay
 import StatimeModel.Model.ServoDriver
 import StatimeModel.Model.Metrics
+import StatimeModel.Model.Exporter
 /-
 model-driver: line protocol, ops in (stdin), canonical observations out (stdout).
 One output line per input line (multi-part outputs are joined with " ; ").
@@ -23,6 +24,7 @@ def stepLine (st : DState) (line : String) : DState × String :=
   | "OVL" :: rest =>
     let (o, out) := ovlLine st.ovl rest
     ({ st with ovl := o }, out)
+  | "EXP" :: rest => (st, Exporter.expLine rest)
   | "MET" :: rest => (st, Metrics.metLine rest)
   | "FMT" :: rest => (st, Metrics.fmtLine rest)
   | "FLT" :: rest =>
